@@ -56,6 +56,10 @@ def case_rsa_alone(bits, seed):
 def case_rsa_batch(bits, seed, size):
   w = world.load()
   ks = [_rsa_key(bits, seed + i) for i in range(size)]
+  if size >= 2:
+    # the same healthy key may occur more than once in a batch (e.g. re-submitted certificates)
+    ks.append(_rsa_key(bits, seed))
+    ks.insert(1, _rsa_key(bits, seed + size - 1))
   st, ret = guarded(w.paranoid.CheckAllRSA, ks)
   if st == 'exc':
     return ['CheckAllRSA raised %s on %d healthy keys' % (ret, size)]
